@@ -54,7 +54,8 @@ func runC09(c *Ctx) {
 	c.Has(r1, a2, "realm looked up by HELLO.Realm", `^store:\^realm=\^r\.realms\[\^hello\.Realm\],ok#0$`, 1)
 	c.Fields(r1, ac+"$1", "ABORT literal", "wamp.Abort", fieldIs("Reason", `.`), map[string]string{"Reason": `^%reason$`}, 1)
 	c.Before(r1, ac+"$1", "ABORT then close", `^send:call:invoke:wamp\.Peer\.Send\[\^client\]\(\)<-&local:abortMsg$`, `^call:invoke:wamp\.Peer\.Close\[\^client\]\(\)$`)
-	c.R.Floor(r1, 20)
+	ruleOnlyInProcessIsLocal(c, r1)
+	c.R.Floor(r1, 24)
 
 	const r2 = "C09.R2 single attach path"
 	c.OnlyCalledFrom(r2, "realm.handleSession", `^router\.\(\*realm\)\.handleSession$`, `^router\.\(\*router\)\.AttachClient$`, 1)
@@ -111,7 +112,8 @@ func runC09(c *Ctx) {
 		checkAuthenticator(c, r3, fname, fn)
 	}
 	c.R.Check(nAuth >= 4, r3, "router/auth", "authenticator implementations enumerated", "-", fmt.Sprintf("found %d types implementing auth.Authenticator, 4 confirmed by reading", nAuth))
-	c.R.Floor(r3, 12)
+	ruleRandomLength(c, r3)
+	c.R.Floor(r3, 15)
 
 	const r5 = "C09.R5 identity recorded for a session comes from router and authenticator"
 	acl := rlm + "authClient"
@@ -124,12 +126,7 @@ func runC09(c *Ctx) {
 	c.Guard(r5, acl, "authenticator's WELCOME returned", `^return:call:invoke:auth\.Authenticator\.Authenticate\[.*#0, nil$`, 1,
 		clause("authenticator returned no error", T(`^\(call:invoke:auth\.Authenticator\.Authenticate\[.*\]\(%sid, %details, %client\)#1 == nil\)$`)),
 		clause("an authenticator for an offered method exists", F(`^\(call:router\.\(\*realm\)\.getAuthenticator\(.*\)#0 == nil\)$`)))
-	// session details: HELLO loop, then WELCOME loop, then session id
-	helloCopy := `^mapupdate:makemap\(wamp\.Dict\)\[range\(` + hello + `#0\.Details\)#k\]=`
-	welcomeCopy := `^mapupdate:makemap\(wamp\.Dict\)\[range\(` + authc + `#0\.Details\)#k\]=`
-	sessID := `^mapupdate:makemap\(wamp\.Dict\)\["session"\]=call:wamp\.GlobalID\(\)$`
-	c.Reach(r5, ac, "WELCOME details are copied after (over) HELLO details", ReachSpec{From: welcomeCopy, Target: helloCopy, Want: false})
-	c.Reach(r5, ac, "session id written after both copies", ReachSpec{From: sessID, Target: helloCopy + `|` + welcomeCopy, Want: false})
+	ruleSessionDetailsOrder(c, r5)
 	c.Has(r5, ac, "session details stored on the session", `^store:call:wamp\.NewSession\(.*\)\.&Details=makemap\(wamp\.Dict\)$`, 1)
 	c.Before(r5, ac, "details complete before the session is handed to the realm", `^store:call:wamp\.NewSession\(.*\)\.&Details=makemap\(wamp\.Dict\)$`, hs)
 	c.Has(r5, ac, "WELCOME carries the router-generated session id", `^store:`+authc+`#0\.&ID=call:wamp\.GlobalID\(\)$`, 1)
@@ -342,6 +339,36 @@ func checkAuthenticator(c *Ctx, rule, fname string, fn *ssa.Function) {
 	}
 }
 
+// ruleRandomLength: every buffer the authenticators fill from crypto/rand has its full, non-trivial length (a
+// zero-length read "succeeds" and yields an empty, guessable nonce or challenge).
+func ruleRandomLength(c *Ctx, rule string) {
+	n := 0
+	lenRe := re(`^newarr\(\[(\d+)\]byte\)\[:(\d+)\]$`)
+	for _, pkg := range []string{"router/auth", "wamp/crsign"} {
+		for _, fn := range c.P.FuncsIn(pkg) {
+			for _, in := range ir.Instrs(fn) {
+				call, ok := in.(*ssa.Call)
+				if !ok || ir.CalleeName(call.Call.StaticCallee()) != "crypto/rand.Read" || len(call.Call.Args) != 1 {
+					continue
+				}
+				n++
+				d := ir.Desc(call.Call.Args[0])
+				okLen := false
+				if m := lenRe.FindStringSubmatch(d); m != nil {
+					var l int
+					fmt.Sscan(m[2], &l)
+					okLen = m[1] == m[2] && l >= 16
+				} else if sl, isSl := call.Call.Args[0].(*ssa.Slice); isSl && sl.Low == nil && sl.High == nil {
+					okLen = true // whole array
+				}
+				c.R.Check(okLen, rule, ir.ShortName(fn), "random buffer has its full length (>= 16 bytes): "+d, c.pos(in),
+					"crypto/rand.Read fills "+d+": a short or empty read leaves the nonce/challenge guessable")
+			}
+		}
+	}
+	c.R.Check(n >= 2, rule, "router/auth", "crypto/rand reads enumerated", "-", fmt.Sprintf("found %d", n))
+}
+
 func regexpQuote(s string) string { return q(s) }
 
 // flowsToComparator: the parameter (or a value computed from it by calls,
@@ -405,4 +432,19 @@ func flowsToComparator(fn *ssa.Function, p ssa.Value, depth int) bool {
 		}
 	}
 	return false
+}
+
+// ruleSessionDetailsOrder: the details recorded for a session (which eligibility lists, the Authorizer and the meta
+// API read) are the client's HELLO details overwritten by what the authenticator put in WELCOME, overwritten by the
+// router's session id — never the other way round.
+func ruleSessionDetailsOrder(c *Ctx, r5 string) {
+	ac := "router.(*router).AttachClient"
+	hello := `call:wamp\.RecvTimeout\(%client, 5000000000\)#0\.\(\*wamp\.Hello\),ok`
+	authc := `call:router\.\(\*realm\)\.authClient\(local:realm, call:wamp\.GlobalID\(\), %client, ` + hello + `#0\.Details\)`
+	// session details: HELLO loop, then WELCOME loop, then session id
+	helloCopy := `^mapupdate:makemap\(wamp\.Dict\)\[range\(` + hello + `#0\.Details\)#k\]=`
+	welcomeCopy := `^mapupdate:makemap\(wamp\.Dict\)\[range\(` + authc + `#0\.Details\)#k\]=`
+	sessID := `^mapupdate:makemap\(wamp\.Dict\)\["session"\]=call:wamp\.GlobalID\(\)$`
+	c.Reach(r5, ac, "WELCOME details are copied after (over) HELLO details", ReachSpec{From: welcomeCopy, Target: helloCopy, Want: false})
+	c.Reach(r5, ac, "session id written after both copies", ReachSpec{From: sessID, Target: helloCopy + `|` + welcomeCopy, Want: false})
 }
